@@ -20,10 +20,74 @@ func childProbe(r *hk.Run, line string, timeout time.Duration) (string, string) 
 	return strings.Join(out, " | "), st
 }
 
-func probes(r *hk.Run) {
-	for _, l := range []string{"probe gateleak localdisk", "probe gateleak diskpacked", "probe filesnil", "probe overlaykv",
-		"probe union", "probe dproll", "probe dprm", "probe mergelost"} {
-		out, st := childProbe(r, l, 60*time.Second)
-		r.Note(l + " => " + out + " [" + st + "]")
+// inproc runs op lines on a fresh interpreter (no model involved) and returns the answers
+func inproc(r *hk.Run, lines ...string) []string {
+	ex := &Exec{}
+	defer ex.close()
+	var out []string
+	for _, l := range lines {
+		out = append(out, hk.Guard(func() string { return ex.Do(strings.Fields(l)) }))
+		r.ImplOnly("probe")
 	}
+	return out
+}
+
+// probes re-executes the witness of every finding of C13.
+func probes(r *hk.Run) {
+	b := mkBlob(hk.NewRand(7))
+	k, v := hk.Hex([]byte(b.key)), hk.Hex(b.val)
+	child := func(line string) (string, string) { return childProbe(r, line, 90*time.Second) }
+
+	// F-C13-1 (row 1): StatBlobsParallelHelper leaks a gate slot per cancelled call
+	o1, s1 := child("probe gateleak localdisk")
+	o2, s2 := child("probe gateleak diskpacked")
+	r.Probe("F-C13-1", strings.Contains(o1+o2, "hang") || s1 != "exit0" || s2 != "exit0", o1+" ["+s1+"]; "+o2+" ["+s2+"]")
+	r.Hit("mechanism:gate-slot-released")
+
+	// F-C13-2 (row 3): files.fetch on a non-ENOENT Stat error
+	o, st := child("probe filesnil")
+	r.Probe("F-C13-2", !strings.Contains(o, "faulted-fetch=err next-fetch=ok") || st != "exit0", o+" ["+st+"]")
+
+	// F-C13-3 (known): replica's best-effort remove
+	a := inproc(r, "cfg replica2 faulty nb mem faulty - mem // replica mem@nb mem@-", "recv "+k+" "+v, "rm "+k, "fetch "+k)
+	rep3 := len(a) == 4 && a[2] == "ok" && strings.HasPrefix(a[3], "bytes")
+	r.Probe("F-C13-3", rep3, "replica[mem, mem], first replica's RemoveBlobs fails: "+strings.Join(a[1:], ", "))
+
+	// F-C13-4 (fixed): proxycache's former parallel remove
+	a = inproc(r, "cfg proxy 100000 faulty - mem faulty nb mem // proxy:100000 mem@- mem@nb", "recv "+k+" "+v, "rm "+k, "fetch "+k, "enum - 10")
+	r.Probe("F-C13-4", len(a) == 5 && a[2] == "err" && strings.HasPrefix(a[3], "bytes") && a[4] == "refs",
+		"proxycache, cache's RemoveBlobs fails: "+strings.Join(a[1:], ", "))
+
+	// F-C13-5 (fixed): replica.Fetch passing on a later replica's "not exist"
+	a = inproc(r, "cfg replica2 faulty nb mem faulty b mem // replica mem@nb mem@b", "recv "+k+" "+v, "fetch "+k, "fetch "+k)
+	r.Probe("F-C13-5", len(a) == 4 && a[2] == "notexist", "replica[mem, mem], holder's Fetch fails: "+strings.Join(a[1:], ", "))
+
+	// F-C13-6 (row 4): overlay.isDeleted swallowing KV errors
+	o, st = child("probe overlaykv")
+	r.Probe("F-C13-6", strings.Contains(o, "faulted-fetch=bytes") || strings.Contains(o, "faulted-stat=ok1") || st != "exit0", o+" ["+st+"]")
+
+	// F-C13-7 (row 5): union.StatBlobs closing a channel other goroutines send on
+	o, st = child("probe union")
+	r.Probe("F-C13-7", st != "exit0" || !strings.Contains(o, "survived"), o+" ["+st+"]")
+
+	// F-C13-8 (row 2): diskpacked roll-over + failed index write
+	o, st = child("probe dproll")
+	r.Probe("F-C13-8", !strings.Contains(o, "reindex=ok pack-starts-with-zeros=no") || st != "exit0", o+" ["+st+"]")
+	r.Hit("mechanism:diskpacked-append-undone")
+
+	// F-C13-9 (row 31, known): diskpacked RemoveBlobs zeroes the data before the index batch commits
+	o, st = child("probe dprm")
+	rep9 := strings.Contains(o, "fetch=zeros")
+	r.Probe("F-C13-9", rep9, o+" ["+st+"]")
+	if rep9 {
+		r.Fail("diskpacked-failed-remove-serves-zeros", "RemoveBlobs whose index CommitBatch fails answers an error; Fetch then serves zero bytes of the right size without error",
+			"the blob, not-exist, or an error", o, []string{"probe dprm"})
+	} else if !strings.Contains(o, "faulted-rm=err") || st != "exit0" {
+		r.Fail("diskpacked-remove-probe-unexpected", "probe dprm", "dprm faulted-rm=err …", o+" ["+st+"]", []string{"probe dprm"})
+	}
+
+	// F-C13-10: mergedEnumerate losing the error of a source that already closed its channel
+	o, st = child("probe mergelost")
+	r.Probe("F-C13-10", !strings.Contains(o, "answered-ok=0/") || st != "exit0", o+" ["+st+"]")
+	r.Hit("mechanism:enumeration-closes-channels")
 }
